@@ -110,11 +110,13 @@ def drive(text, params, catalog=CATALOG, wrong=None):
     res = {'stage': 'prepared', 'nparams': len(info['parameters']), 'planner': p}
     try:
         steps = []
-        for st in p.execute_steps(list(params)):
+        values = list(params)
+        for st in p.execute_steps(values):
             st.set_result(None)
             steps.append(st)
         res['steps'] = steps
         res['stage'] = 'executed'
+        res['values_after'] = values
     except (PlanningException, NotImplementedError) as e:
         res['exec_exc'] = e
     except Exception as e:
@@ -148,6 +150,11 @@ class CHECK(Check):
                     out.append(('bind', ti, chosen))
         for ti in range(len(TEMPLATES)):
             out.append(('history', ti, ()))
+        # two statements on one planner, the step generator of the first consumed only after the second was prepared and executed
+        picks = [i for i, t in enumerate(TEMPLATES) if t[0] in ('select', 'join', 'update', 'delete', 'insert', 'union')][::3][:10]
+        for i in picks:
+            for j in picks:
+                out.append(('deferred', i, j))
         return out
 
     def judge(self, ti, chosen):
@@ -193,6 +200,8 @@ class CHECK(Check):
             return fails
         if r['nparams'] != n:
             fails.append(('parameter-count', f'{qtext!r}: statement info reports {r["nparams"]} parameters, {n} written'))
+        if 'steps' in r and r.get('values_after') != list(markers):
+            fails.append(('values-list-of-the-caller-changed', f'{qtext!r}: the list passed to execute_steps was {markers} and is {r.get("values_after")} afterwards'))
         if 'steps' in r:
             if ref_fp is not None and plan_fp(r['steps']) != ref_fp and not any(f[0] in ('bound-out-of-textual-order', 'placeholder-left-unbound', 'placeholders-not-all-found') for f in fails):
                 fails.append(('executed-plan-differs', f'{qtext!r} executed with {markers} plans {r["steps"]}\n    inline literals plan {ref_plan.steps}'))
@@ -212,7 +221,49 @@ class CHECK(Check):
                     fails.append((f'wrong-value-count-accepted|{"fewer" if len(wrong) < n else "more"}', f'{qtext!r} executed with {len(wrong)} values (needs {n}) {what}'))
         return fails
 
+    def run_deferred(self, res, i, j):
+        k1, t1, l1 = TEMPLATES[i]
+        k2, t2, l2 = TEMPLATES[j]
+        q1, i1, m1 = instantiate(t1, len(l1), set(range(min(2, len(l1)))))
+        q2, i2, m2 = instantiate(t2, len(l2), set(range(min(2, len(l2)))))
+        m2 = [x + 500 for x in m2] if all(isinstance(x, int) for x in m2) else m2
+        p1, p2 = parsing.outcome(q1, 'mindsdb'), parsing.outcome(q2, 'mindsdb')
+        ref = parsing.outcome(i1, 'mindsdb')
+        if p1.kind != 'ok' or p2.kind != 'ok' or ref.kind != 'ok':
+            return res
+        try:
+            ref_fp = plan_fp(plan_query(ref.value, **copy.deepcopy(CATALOG)).steps)
+        except Exception:
+            return res
+        planner = QueryPlanner(**copy.deepcopy(CATALOG))
+        try:
+            for st in planner.prepare_steps(p1.value):
+                st.set_result(feed(st))
+            g1 = planner.execute_steps(list(m1))            # not consumed yet
+            for st in planner.prepare_steps(p2.value):
+                st.set_result(feed(st))
+            for st in planner.execute_steps(list(m2)):
+                st.set_result(None)
+            steps1 = []
+            for st in g1:
+                st.set_result(None)
+                steps1.append(st)
+        except (PlanningException, NotImplementedError):
+            res.count('deferred_declared_unsupported')
+            return res
+        except Exception as e:
+            res.count('deferred_internal_error')
+            return res
+        res.count('deferred_scenarios')
+        res.key(('deferred', i, j))
+        if plan_fp(steps1) != ref_fp:
+            res.violation(f'deferred-execution-plans-another-statement|{k1}|{k2}',
+                          f'prepare {q1!r}; g = execute_steps({m1}); prepare and execute {q2!r}; consuming g yields {steps1}\n    instead of the plan of {i1!r}')
+        return res
+
     def run(self, case):
+        if case[0] == 'deferred':
+            return self.run_deferred(Result(), case[1], case[2])
         res = Result()
         mode, ti, chosen = case
         kind, tpl, labels = TEMPLATES[ti]
